@@ -15,11 +15,13 @@ package bbsblssignatureproof2020
 // It uses BLS12-381 pairing-friendly curve (https://tools.ietf.org/html/draft-irtf-cfrg-pairing-friendly-curves-03).
 
 import (
+	"encoding/binary"
+	"errors"
 	"fmt"
+	"math/bits"
 	"sort"
 	"strings"
 
-	"github.com/hyperledger/aries-framework-go/component/kmscrypto/crypto/primitive/bbs12381g2pub"
 	"github.com/hyperledger/aries-framework-go/component/models/ld/processor"
 	"github.com/hyperledger/aries-framework-go/component/models/signature/api"
 	"github.com/hyperledger/aries-framework-go/component/models/signature/suite"
@@ -116,7 +118,7 @@ func (s *Suite) Verify(pubKeyValue *api.PublicKey, doc, signature []byte) error 
 		return err
 	}
 
-	revealed, err := bbs12381g2pub.RevealedMessagesCount(signature)
+	revealed, err := revealedMessagesCount(signature)
 	if err != nil {
 		return err
 	}
@@ -134,6 +136,29 @@ func (s *Suite) Verify(pubKeyValue *api.PublicKey, doc, signature []byte) error 
 	}
 
 	return nil
+}
+
+// revealedMessagesCount reads the payload in front of a BBS+ signature proof: the 2-byte big-endian number of signed
+// messages followed by a bit vector (messages/8+1 bytes) with one bit set per revealed message.
+func revealedMessagesCount(signatureProof []byte) (int, error) {
+	const countLen = 2
+
+	if len(signatureProof) < countLen {
+		return 0, errors.New("invalid size of signature proof")
+	}
+
+	end := countLen + int(binary.BigEndian.Uint16(signatureProof))/8 + 1 //nolint:gomnd
+	if len(signatureProof) < end {
+		return 0, errors.New("invalid size of signature proof")
+	}
+
+	revealed := 0
+
+	for _, b := range signatureProof[countLen:end] {
+		revealed += bits.OnesCount8(b)
+	}
+
+	return revealed, nil
 }
 
 // GetDigest returns the doc itself as we would process N-Quads statements as messages to be signed/verified.
